@@ -39,13 +39,15 @@ def _min_aw(pins, dw):
 
 def configs(tier, seed):
     out = []
-    pins = [1, 2, 3, 4, 5, 8, 9] if tier == "quick" else [1, 2, 3, 4, 5, 8, 9, 12, 16, 17]
+    pins = [1, 2, 3, 4, 5, 8, 9, 17] if tier == "quick" else [1, 2, 3, 4, 5, 8, 9, 12, 16, 17, 24, 33]
     for p in pins:
         for dw in ([8, 16] if tier == "quick" else [8, 16, 32]):
             aw0 = _min_aw(p, dw)
             for aw in (aw0, aw0 + 1):
                 for st in (0, 1, 2, 3):
                     if tier == "quick" and (aw != aw0) and st not in (2,):
+                        continue
+                    if p >= 17 and (st != 1 or aw != aw0 or (tier == "quick" and dw != 16)):
                         continue
                     out.append({"pins": p, "dw": dw, "aw": aw, "stages": st})
     return out
@@ -146,12 +148,35 @@ def queries(h, cfg):
             bad.append(z3.Extract(val.size() - 1, P, val) != 0)
         return a, z3.Or(*bad)
 
+    def setclr_twice(h, fr):
+        """two complete SetClr writes back to back (consecutive cycles when SetClr fits one bus word)"""
+        a1, OV, t = write_reg(h, fr, 0, "Output", P)
+        a2, S1, t = write_reg(h, fr, t, "SetClr", 2 * P)
+        a3, S2, t = write_reg(h, fr, t, "SetClr", 2 * P)
+        a = a1 + a2 + a3 + idle(h, fr[t])
+        s, e = h.regs["Output"]
+        t += 1
+        got = []
+        for j in range(e - s):
+            a += rd(h, fr[t + j], s + j)
+            got.append(fr[t + j + 1].sig(h.g.bus.r_data))
+        val = got[0] if len(got) == 1 else z3.Concat(*reversed(got))
+        bad = []
+        for k in range(P):
+            ob = z3.Extract(k, k, OV)
+            for SV in (S1, S2):
+                code = z3.Extract(2 * k + 1, 2 * k, SV)
+                ob = z3.If(code == 1, bv(1, 1), z3.If(code == 2, bv(1, 0), ob))
+            bad.append(z3.Extract(k, k, val) != ob)
+        return a, z3.Or(*bad)
+
     def k_setclr(h):
         return nchunks(h, "Output") * 2 + nchunks(h, "SetClr") + 2
 
     def setclr_twin(h, fr):
         a, _ = setclr(h, fr)
-        return a, fr[-1].sig(h.g.bus.r_data) != 0
+        n = nchunks(h, "Output")
+        return a, z3.Or(*[f.sig(h.g.bus.r_data) != 0 for f in fr[-n:]])
 
     # ---- (3) input delay ------------------------------------------------------------------------------
     def k_input(h):
@@ -179,7 +204,8 @@ def queries(h, cfg):
         return a, fr[stages + 1].sig(h.g.bus.r_data) != 0
     return [Q("mode-table-all-pins", k_mode(h), mode_table, twin=mode_twin, max_prefix=2),
             Q("setclr-codes-all-pins", k_setclr(h), setclr, twin=setclr_twin, max_prefix=2),
-            Q("input-delayed-exactly", k_input(h), input_delay, twin=input_twin, max_prefix=2)]
+            Q("input-delayed-exactly", k_input(h), input_delay, twin=input_twin, max_prefix=2),
+            Q("two-setclr-writes-back-to-back", k_setclr(h) + nchunks(h, "SetClr"), setclr_twice, max_prefix=2)]
 
 
 def check(cfg, out, stats):
